@@ -61,11 +61,11 @@ def formatter_misc(shard):
     p = Partial()
     cases = []
     for v in patterns32():
-        for off in (0, -(1 << 32), 1 << 32, 1 << 37, -(1 << 40)):
+        for off in (0, -(1 << 32), 1 << 32, 1 << 37, -(1 << 40), -(1 << 33), -3 * (1 << 32)):
             cases.append((v + off, 32))
     for n in (1, 2, 4, 7, 8, 9, 13, 24, 31, 33, 64):
         for v in (0, 1, (1 << (n - 1)) - 1, 1 << (n - 1), (1 << n) - 1, (1 << n) - 2, 0x5555555555555555 % (1 << n), 0xAAAAAAAAAAAAAAAA % (1 << n)):
-            for off in (0, -(1 << n), 1 << n, 1 << (n + 5)):
+            for off in (0, -(1 << n), 1 << n, 1 << (n + 5), -(1 << (n + 1)), -3 * (1 << n), -(1 << (n + 5))):
                 cases.append((v + off, n))
     for x, n in cases:
         got = get_n_bit_representations(x, n)
@@ -119,6 +119,60 @@ def table_shard(shard):
                             f"bytes {mask:012b} from {base:#x} written in order {order}: {d}", size=(bin(mask).count("1"), mask, order))
     if lo == 0:
         p.sample(dict(kind="table", base=base, mask=0b101000010011, order=2, zero_mask=0b101000010011))
+    return p
+
+
+# ---- table histories: the table is current after any interleaving of writes, resets and table calls --------
+def table_history_shard(shard):
+    """All histories up to a depth over {write byte at one of 4 addresses (two values, one of them 0), reset through
+    load_program of a program without data, reset through load_program of a program with data, look at the table}."""
+    arch, depth = shard
+    p = Partial()
+    if arch == "riscv":
+        addrs = (BASE, BASE + 5, BASE + 6, (1 << 32) - 1)
+        ops = [("w", a, v) for a in addrs for v in (0, 0x9C)] + [("load", "addi x1, x0, 1\n", {}), ("load", ".data\nq: .byte 7\n", {BASE: 7}), ("table",)]
+    else:
+        addrs = (0, 1, 2000, 4095)
+        ops = [("w", a, v) for a in addrs for v in (0, 0x9C31)] + [("load", "", {}), ("load", "INC\n.data\nq: .word 7\n", {0: 0x9000, 4095: 7}), ("table",)]
+    import itertools as it
+    for d in range(1, depth + 1):
+        for hist in it.product(range(len(ops)), repeat=d):
+            if ops[hist[-1]][0] != "table":
+                continue  # the oracle looks at the table: histories are distinguished by where they end
+            sim = RiscvSimulation() if arch == "riscv" else ToySimulation()
+            flat = {}
+            bad = None
+            for oi in hist:
+                op = ops[oi]
+                if op[0] == "w":
+                    if arch == "riscv":
+                        sim.state.memory.write_byte(op[1], U8(op[2]))
+                    else:
+                        sim.state.memory.write_halfword(op[1], U16(op[2]))
+                    flat[op[1]] = op[2]
+                elif op[0] == "load":
+                    sim.load_program(op[1])
+                    flat = dict(op[2])
+                else:
+                    if arch == "riscv":
+                        exp = []
+                        for w in sorted({a & ~3 for a in flat}):
+                            exp.append(((w, "0x" + format(w, "08X")), F.fmt(sum(flat.get(w + i, 0) << (8 * i) for i in range(4)), 32)))
+                        got = [((a, h), tuple(r)) for (a, h), r in sim.get_data_memory_entries()]
+                    else:
+                        exp = [((a, "0x" + format(a, "03X")), F.fmt(v, 16)) for a, v in sorted(flat.items())]
+                        got = [((a, h), tuple(r)) for (a, h), r, _i, _c in sim.get_memory_table_entries()]
+                    if got != exp and bad is None:
+                        bad = f"table {got[:3]}, expected {exp[:3]}"
+            p.evaluations += 1
+            if sum(1 for oi in hist if ops[oi][0] == "table") > 1 or any(ops[oi][0] == "load" for oi in hist):
+                p.nontrivial += 1
+            if any(ops[oi][0] == "load" for oi in hist[1:]) and any(ops[oi][0] == "table" for oi in hist[:-1]):
+                p.counters["table-looked-at-before-a-reset"] += 1
+            if bad:
+                p.violation(dict(oracle="table-history", arch=arch), dict(kind="table-history", arch=arch, hist=list(hist)),
+                            f"{arch}: history {[ops[oi][:2] for oi in hist]}: {bad}", size=(d, hist))
+    p.sample(dict(kind="table-history", arch=arch, hist=[0, len(ops) - 1, len(ops) - 3, len(ops) - 1]))
     return p
 
 
@@ -201,6 +255,9 @@ def replay(case):
     if k == "table":
         d = table_case(case["base"], case["mask"], case["order"], case["zero_mask"])
         return [(dict(oracle="memory-table"), d)] if d else []
+    if k == "table-history":
+        part = table_history_shard((case["arch"], len(case["hist"])))
+        return [(lst[0][1], lst[0][3]) for _k, (n, lst) in part.viol.items()]
     if k == "reg":
         sim = RiscvSimulation()
         sim.state.register_file.registers[case["i"]] = U32(case["v"])
@@ -216,10 +273,12 @@ def run(ctx):
                 "and parsed back. Memory table: every subset of 12 byte addresses (3 words) written in ascending / descending / interleaved order incl. "
                 "zero-valued bytes, at the bottom and at the top of the data range: exactly the aligned words containing a written byte, ascending, true "
                 "addresses, little-endian values. Register table: every register x boundary values. TOY: every 16-bit accu value, every 12-bit pc value, "
-                "every 16-bit value in a memory cell. Non-trivial = negative / over-wide / non-zero inputs, populations of more than one byte.")
+                "every 16-bit value in a memory cell. Table histories: every interleaving up to depth 4 (5) of byte writes (incl. value 0), resets through "
+                "load_program (with and without a data segment) and table calls, ending in a table call. Non-trivial = negative / over-wide / non-zero inputs, populations of more than one byte.")
     t0 = time.time()
-    offs12 = (0, -(1 << 12), 1 << 12, 1 << 17)
-    offs16 = (0, -(1 << 16), 1 << 16, 1 << 21)
+    # in-range negative, over-wide positive, and negative AND over-wide aliases of every value
+    offs12 = (0, -(1 << 12), 1 << 12, 1 << 17, -(1 << 13), -3 * (1 << 12), -(1 << 17))
+    offs16 = (0, -(1 << 16), 1 << 16, 1 << 21, -(1 << 17), -3 * (1 << 16), -(1 << 21))
     shards = [(12, 0, 4096, offs12)] + [(16, lo, lo + 4096, offs16) for lo in range(0, 65536, 4096)]
     part = pmap(formatter_shard, shards)
     part.merge(formatter_misc(None))
@@ -232,6 +291,10 @@ def run(ctx):
     part = pmap(table_shard, shards)
     ctx.space("memory-table", part, t0, populations=4096, orders=3)
     ctx.require("zero-valued-written-byte")
+    t0 = time.time()
+    part = pmap(table_history_shard, [("riscv", 4 if ctx.quick else 5), ("toy", 4 if ctx.quick else 5)])
+    ctx.space("table-histories", part, t0, operations=11, depth=4 if ctx.quick else 5)
+    ctx.require("table-looked-at-before-a-reset")
     t0 = time.time()
     part = pmap(register_shard, [0])
     ctx.space("register-table", part, t0)
